@@ -32,6 +32,12 @@ func (db *DB) handleSubscription(ctx context.Context, r *request.Request) (<-cha
 	if !ok {
 		return nil, client.NewErrUnexpectedType[request.ObjectSubscription]("SubscriptionSelection", selections)
 	}
+	col, err := db.GetCollectionByName(ctx, subRequest.Collection)
+	if err != nil {
+		return nil, err
+	}
+	collectionID := col.Version().CollectionID
+
 	sub, err := db.events.Subscribe(event.UpdateName)
 	if err != nil {
 		return nil, err
@@ -56,6 +62,9 @@ func (db *DB) handleSubscription(ctx context.Context, r *request.Request) (<-cha
 				evt, ok = val.Data.(event.Update)
 				if !ok {
 					continue // invalid event value
+				}
+				if evt.CollectionID != collectionID {
+					continue // an update of another collection
 				}
 			}
 
